@@ -1091,7 +1091,17 @@ impl CodegenContext {
                         // '*' is the program counter as seen by the code (i.e. including a segment's 'pc' relocation),
                         // so translate it back to the address we are emitting to
                         let target_offset = seg.target_offset();
-                        seg.set_pc(pc - target_offset);
+                        let emit_pc = pc.saturating_sub(target_offset);
+                        if !(0..=0x10000).contains(&emit_pc) {
+                            return Err(Diagnostic::error()
+                                .with_message(format!(
+                                    "program counter is out of range: {}",
+                                    pc
+                                ))
+                                .with_labels(vec![value.span.to_label()])
+                                .into());
+                        }
+                        seg.set_pc(emit_pc);
                     }
                 }
             }
